@@ -231,7 +231,7 @@ impl PropImpl for C10 {
          3 versions x 3 fixed layouts x 3 contexts (5184). Non-trivial: >= 2 entries or alternatives, or a relation with >= 2 optional parts. Distinct by text hash.".into()
     }
     fn budget(&self, tier: Tier) -> Budget {
-        Budget { cases_per_lane: if tier == Tier::Quick { 3000 } else { 60_000 }, tape_max: 500, cpu_s: 10 }
+        Budget { cases_per_lane: if tier == Tier::Quick { 15000 } else { 60_000 }, tape_max: 500, cpu_s: 10 }
     }
     fn spaces(&self, _tier: Tier) -> Vec<Space> {
         vec![Space { name: "one relation: parts x operators x versions x layouts x contexts".into(), size: ENUM_SIZE, exhaustive: true }]
